@@ -300,6 +300,8 @@ def main(tier, seed):
         rep.obligation("correspondence Heap model vs opfython.core.Heap (full state after every op)", dis == 0,
                        "" if dis == 0 else "%d disagreements; first: size=%d pol=%s ops=%r" % (dis, first[1], first[2], first[3]))
     rep.corr["heap_histories"] = dict(cases=len(terms), disagreements=dis, distribution=stats, exhaustive_small=exh)
+    import floatorder   # fenc / ranker / PrimFloat.ltb of Props/C0{1,5}_float_order.v are common.enc / Ranker / Python's <
+    floatorder.check(rep, tier, seed)
     # oracle on the implementation's own answers (valid and exhaustive-valid streams)
     nviol = 0
     for (stream, size, pol, ops, trace) in metas:
